@@ -1,7 +1,7 @@
 (* Model/LexerDoc.v — bridge definitions between the lexer model (Model/Lexer.v) and the
    document specification (Spec/Doc.v): which tokens a document stands for, which tokens the
    specification's output segments stand for.  Definitions only. *)
-From TeraV Require Import Model.Value Model.Utf8 Model.Lexer Spec.Doc.
+From TeraV Require Import Model.Value Model.Utf8Lex Model.Lexer Spec.Doc.
 
 Definition spelling_of (dl : delims) : spelling :=
   mkSpelling (d_bs dl) (d_be dl) (d_vs dl) (d_ve dl) (d_cs dl) (d_ce dl).
